@@ -23,11 +23,11 @@ Stales(n, beh) ==
   \cup {[i \in 1..n |-> IF i = j THEN s ELSE "none"] :
           j \in 1..n, s \in {"err", "junk"}}
   \cup {[i \in 1..n |-> IF i = j THEN "out" ELSE "none"] : j \in {k \in 1..n : beh[k] = "ok"}}
-ProtoCases ==
+ProtoN(n) ==
   UNION {{[n |-> n, array |-> arr, beh |-> b, stale |-> s, nocache |-> nc] :
             s \in Stales(n, b), nc \in BOOLEAN} :
-         n \in 1..MaxN, arr \in BOOLEAN, b \in UNION {[1..m -> Behs] : m \in 1..MaxN}}
-Proto == {c \in ProtoCases : Len(c.beh) = c.n /\ (c.array => c.n >= 2) /\ (~c.array => c.n <= 2)}
+         arr \in IF n >= 3 THEN {TRUE} ELSE IF n = 1 THEN {FALSE} ELSE BOOLEAN, b \in [1..n -> Behs]}
+Proto == UNION {ProtoN(n) : n \in 1..MaxN}
 
 Segs == {"", "p", "q", "array"}
 Hashes == {"h1", "h2", "h3"}
@@ -37,17 +37,17 @@ NameCases == {[pre |-> p, h |-> h, arr |-> a] : p \in NamePrefixes, h \in Hashes
 (* remote jobs: a single job made for h1 / h2, an array made for <<h1, h2>> or <<h2, h3>> with some
    children in flight (with or without its eval_hashes file), a job that is not redun's (its last
    segment is no hash) *)
-RemoteShapes(p) ==
+RemoteShapes(p, u) ==
   {[name |-> Name(p, h, FALSE), kids |-> {}, made |-> <<h>>, hashfile |-> FALSE] : h \in {"h1", "h2"}}
-  \cup {[name |-> Name(p, "u7", TRUE), kids |-> ks, made |-> m, hashfile |-> hf] :
+  \cup {[name |-> Name(p, u, TRUE), kids |-> ks, made |-> m, hashfile |-> hf] :
           ks \in {{1}, {2}, {1, 2}}, m \in {<<"h1", "h2">>, <<"h2", "h3">>}, hf \in BOOLEAN}
   \cup {[name |-> p \o <<"headnode">>, kids |-> {}, made |-> <<>>, hashfile |-> FALSE],
         [name |-> p, kids |-> {}, made |-> <<>>, hashfile |-> FALSE]}
 WithId(r, id) == [id |-> id, name |-> r.name, kids |-> r.kids, made |-> r.made, hashfile |-> r.hashfile]
 ReunitePrefixes == {<<"p">>, <<"p", "q">>, <<"">>, <<"p", "array">>, <<"array", "">>}
 ReuniteCases ==
-  UNION {{<<WithId(a, "A")>> : a \in RemoteShapes(p)}
-         \cup {<<WithId(a, "A"), WithId(b, "B")>> : a \in RemoteShapes(p), b \in RemoteShapes(p)} :
+  UNION {{<<WithId(a, "A")>> : a \in RemoteShapes(p, "u7")}
+         \cup {<<WithId(a, "A"), WithId(b, "B")>> : a \in RemoteShapes(p, "u7"), b \in RemoteShapes(p, "u8")} :
          p \in ReunitePrefixes}
 
 NullCase == [n |-> 1, array |-> FALSE, beh |-> <<"ok">>, stale |-> <<"none">>, nocache |-> FALSE]
